@@ -38,6 +38,7 @@ import (
 
 	"mellium.im/xmlstream"
 	"mellium.im/xmpp"
+	"mellium.im/xmpp/bin"
 	"mellium.im/xmpp/blocklist"
 	"mellium.im/xmpp/bookmarks"
 	"mellium.im/xmpp/carbons"
@@ -84,6 +85,7 @@ type Item struct {
 	Name   string   `json:"name"`
 	Sub    string   `json:"sub"`
 	Groups []string `json:"groups"`
+	Rep    string   `json:"rep"` // block / unblock items: shape of the abuse report inside the item ("" = none)
 }
 
 type Inner struct {
@@ -153,6 +155,56 @@ func carbonEl(dir, shape string, in Inner) string {
 	return `<` + dir + ` xmlns="urn:xmpp:carbons:2"><forwarded xmlns="urn:xmpp:forward:0">` + innerMsg(in) + `</forwarded></` + dir + `>`
 }
 
+const (
+	knownCid = "sha1+8f35fef110ffc5df08d579a50083ff9308fb6242@bob.xmpp.org"
+	sidOK    = `<stanza-id xmlns="urn:xmpp:sid:0" id="s1" by="room@muc.example.org"/>`
+)
+
+// report renders the abuse report (XEP-0377) of the given shape: all of them well-formed XML, only "ok" is
+// what the XEP shows.
+func report(shape string) string {
+	open := `<report xmlns="urn:xmpp:reporting:1" reason="urn:xmpp:reporting:abuse">`
+	switch shape {
+	case "":
+		return ""
+	case "ok":
+		return open + sidOK + `<text>bad words</text></report>`
+	case "badby":
+		return open + `<stanza-id xmlns="urn:xmpp:sid:0" id="s1" by="@@"/><text>bad words</text></report>`
+	case "badby2":
+		return open + sidOK + `<stanza-id xmlns="urn:xmpp:sid:0" id="s2" by="a@@b"/></report>`
+	case "sidns":
+		return open + `<stanza-id id="s1" by="room@muc.example.org"/></report>`
+	case "tworeports":
+		return open + sidOK + `</report>` + open + `<text>again</text></report>`
+	case "twotext":
+		return open + `<text>bad words</text><text xml:lang="de">böse Worte</text></report>`
+	case "textkid":
+		return open + `<text>bad <b>words</b></text></report>`
+	case "foreign":
+		return `some text<x xmlns="urn:x:unknown" reason="urn:xmpp:reporting:abuse"><stanza-id by="@@"/></x>`
+	case "noreason":
+		return `<report xmlns="urn:xmpp:reporting:1">` + sidOK + `</report>`
+	}
+	panic("driver: unknown report shape " + shape)
+}
+
+// shaped wraps the content of a payload element according to the request shape: open / close are the payload's
+// tags, own is content named like the RESPONSE of that service with values that do not parse.
+func shaped(shape, open, close, inner, own string) string {
+	switch shape {
+	case "kids":
+		return open + inner + `<junk xmlns="urn:x:junk" a="1"><deep/>t</junk>` + close
+	case "text":
+		return open + "some text" + inner + close
+	case "own":
+		return open + own + inner + close
+	case "twice":
+		return open + inner + close + open + inner + close
+	}
+	return open + inner + close
+}
+
 // render writes the stanza the peer sends for a script element.
 func render(st Stanza) string {
 	head := attr("id", st.ID) + attr("type", st.Typ) + attr("from", st.From) + attr("to", ownFull)
@@ -179,34 +231,51 @@ func render(st Stanza) string {
 	pl := ""
 	switch st.Kind {
 	case "roster":
-		pl = `<query xmlns="jabber:iq:roster"` + attr("ver", st.Ver) + ">"
+		inner := ""
 		if st.Shape == "unknown" {
-			pl += `<foo xmlns="urn:x:unknown"/>`
+			inner += `<foo xmlns="urn:x:unknown"/>`
 		}
 		for _, it := range st.Items {
-			pl += rosterItem(it)
+			if st.Shape == "grpkid" {
+				inner += "<item" + attr("jid", it.JID) + attr("name", it.Name) + attr("subscription", it.Sub) + "><group><b>Friends</b></group><group/></item>"
+				continue
+			}
+			inner += rosterItem(it)
 		}
-		pl += "</query>"
+		pl = shaped(st.Shape, `<query xmlns="jabber:iq:roster"`+attr("ver", st.Ver)+">", "</query>", inner,
+			`<item jid="a@@b" subscription="sometimes" ask="maybe"><group><group/></group></item>`)
 	case "block", "unblock":
-		pl = "<" + st.Kind + ` xmlns="urn:xmpp:blocking">`
+		inner := ""
 		for _, it := range st.Items {
-			pl += "<item" + attr("jid", it.JID) + "/>"
+			inner += "<item" + attr("jid", it.JID) + ">" + report(it.Rep) + "</item>"
 		}
-		pl += "</" + st.Kind + ">"
+		pl = shaped(st.Shape, "<"+st.Kind+` xmlns="urn:xmpp:blocking">`, "</"+st.Kind+">", inner, "")
 	case "blocklist":
-		pl = `<blocklist xmlns="urn:xmpp:blocking"/>`
+		pl = shaped(st.Shape, `<blocklist xmlns="urn:xmpp:blocking">`, `</blocklist>`, "", `<item jid="a@@b"/><item><item/></item>`)
 	case "ping":
-		pl = `<ping xmlns="urn:xmpp:ping"/>`
+		pl = shaped(st.Shape, `<ping xmlns="urn:xmpp:ping">`, `</ping>`, "", `<ping xmlns="urn:xmpp:ping"><pong/></ping>`)
 	case "version":
-		pl = `<query xmlns="jabber:iq:version"/>`
+		pl = shaped(st.Shape, `<query xmlns="jabber:iq:version">`, `</query>`, "", `<name>peer</name><name>again</name><version><v>9</v></version><os xmlns="urn:x:junk"/>`)
 	case "time":
-		pl = `<time xmlns="urn:xmpp:time"/>`
+		pl = shaped(st.Shape, `<time xmlns="urn:xmpp:time">`, `</time>`, "", `<tzo>late</tzo><utc>yesterday</utc><utc/>`)
 	case "info":
-		pl = `<query xmlns="http://jabber.org/protocol/disco#info"` + attr("node", st.Node) + "/>"
+		pl = shaped(st.Shape, `<query xmlns="http://jabber.org/protocol/disco#info"`+attr("node", st.Node)+">", `</query>`, "",
+			`<identity category="x"/><feature/><feature var="f"><feature var="g"/></feature><x xmlns="jabber:x:data" type="bogus"><field type="nosuch"/></x>`)
 	case "items":
-		pl = `<query xmlns="http://jabber.org/protocol/disco#items"` + attr("node", st.Node) + "/>"
+		pl = shaped(st.Shape, `<query xmlns="http://jabber.org/protocol/disco#items"`+attr("node", st.Node)+">", `</query>`, "",
+			`<item jid="a@@b"/><item/><set xmlns="http://jabber.org/protocol/rsm"><max>many</max></set>`)
 	case "extra":
-		pl = `<x xmlns="` + nsExtra + `"/>`
+		pl = shaped(st.Shape, `<x xmlns="`+nsExtra+`">`, `</x>`, "", `<x xmlns="`+nsExtra+`"/>`)
+	case "bob":
+		open := `<data xmlns="urn:xmpp:bob"` + attr("cid", st.Node)
+		switch st.Shape {
+		case "badage":
+			pl = open + ` max-age="soon"/>`
+		case "badb64":
+			pl = open + ` type="text/plain">!!no base64!!</data>`
+		default:
+			pl = shaped(st.Shape, open+">", `</data>`, "", `<data xmlns="urn:xmpp:bob" max-age="soon">????</data>`)
+		}
 	case "foreign":
 		pl = `<y xmlns="urn:x:nobody"/>`
 	case "empty":
@@ -423,9 +492,11 @@ func (r *run) mux() *mux.ServeMux {
 	if c.Block != "off" {
 		h := blocklist.Handler{}
 		if c.Block == "all" {
-			h.Block = func(it blocklist.Item) { r.log(vt.Ev{"ev": "cb", "cb": "block", "jid": it.JID.String()}) }
-			h.Unblock = func(j jid.JID) { r.log(vt.Ev{"ev": "cb", "cb": "unblock", "jid": j.String()}) }
-			h.UnblockAll = func() { r.log(vt.Ev{"ev": "cb", "cb": "unblockall", "jid": ""}) }
+			h.Block = func(it blocklist.Item) {
+				r.log(vt.Ev{"ev": "cb", "cb": "block", "jid": it.JID.String(), "rep": reportSummary(it)})
+			}
+			h.Unblock = func(j jid.JID) { r.log(vt.Ev{"ev": "cb", "cb": "unblock", "jid": j.String(), "rep": ""}) }
+			h.UnblockAll = func() { r.log(vt.Ev{"ev": "cb", "cb": "unblockall", "jid": "", "rep": ""}) }
 			h.List = func(ch chan<- jid.JID) {
 				for i := 0; i < c.List && i < len(listJIDs); i++ {
 					ch <- jid.MustParse(listJIDs[i])
@@ -440,12 +511,30 @@ func (r *run) mux() *mux.ServeMux {
 			th.TimeFunc = func() time.Time { return fixedTime }
 		}
 		opts = append(opts, ping.Handle(), version.Handle(version.Query{Name: "vt", Version: "0.9", OS: "tla"}), xtime.Handle(th), disco.Handle(),
-			mux.Feature(bookmarks.Handler{}))
+			mux.Feature(bookmarks.Handler{}),
+			bin.Handle(bin.Handler{Get: func(cid string) (*bin.Data, error) {
+				if cid == knownCid {
+					return &bin.Data{CID: cid, Type: "text/plain", Data: []byte("hi")}, nil
+				}
+				return nil, stanza.Error{Type: stanza.Cancel, Condition: stanza.ItemNotFound}
+			}}))
 	}
 	if c.Extra {
 		opts = append(opts, mux.IQ(stanza.GetIQ, xml.Name{Space: nsExtra, Local: "x"}, extraH{}), mux.Feature(staticSrc{}), mux.Ident(staticSrc{}))
 	}
 	return mux.New(stanza.NSClient, opts...)
+}
+
+// reportSummary is what the Block callback was told about the abuse report: reason|id@by,...|text ("" without report).
+func reportSummary(it blocklist.Item) string {
+	if it.Reason == "" && len(it.StanzaIDs) == 0 && it.Text == "" {
+		return ""
+	}
+	ids := []string{}
+	for _, id := range it.StanzaIDs {
+		ids = append(ids, id.ID+"@"+id.By.String())
+	}
+	return string(it.Reason) + "|" + strings.Join(ids, ",") + "|" + it.Text
 }
 
 // ---------------------------------------------------------------------------------- wire
@@ -565,6 +654,8 @@ func describe(n *node) vt.Ev {
 		a = []string{txt("name"), txt("version"), txt("os")}
 	case xtime.NS:
 		a = []string{txt("tzo"), txt("utc")}
+	case bin.NS:
+		a = []string{pl.Attr["cid"], pl.Attr["type"], pl.Text}
 	case disco.NSInfo:
 		for _, k := range pl.Kids {
 			switch k.Name.Local {
